@@ -1,5 +1,5 @@
 (* Correspondence B: the closed-form specs evaluated over Z, to be compared with PyWavelets on the same integer data. *)
-From PW Require Import Base.Ops Base.Sum Base.Sig Base.Tensor Spec.Line Proofs.SwtProofs Run.Case.
+From PW Require Import Base.Ops Base.Sum Base.Sig Base.Tensor Spec.Line Spec.DtcwtRef Proofs.SwtProofs Run.Case.
 
 Definition line_of (t:zten) : Z -> Z := fun q => tf t 0 0 0 q.
 Definition ten_of_line (n:Z) (f:Z->Z) : zten := force ZOps (mkT 1 1 1 n (fun _ _ _ k => f k)).
@@ -20,5 +20,9 @@ Definition run_spec (c:case) : list Z :=
            Ok [ten_of_line (2*n) (syn_per ZOps (L 0%nat) n (f 0%nat) (f 1%nat) (line_of (x 0%nat)) (line_of (x 1%nat)))]
   | 105 => let N := tW (x 0%nat) in
            Ok [ten_of_line N (pywt_swt ZOps (L 0%nat) N (geti ip 0) (f 0%nat) (line_of (x 0%nat)))]
+  (* reference dtcwt package, one column (H = r, W = 1 in the encoding: (1,1,1,r)) *)
+  | 110 => let r := tW (x 0%nat) in Ok [ten_of_line r (ref_colfilter ZOps (L 0%nat) r (f 0%nat) (line_of (x 0%nat)))]
+  | 111 => let r := tW (x 0%nat) in Ok [ten_of_line (r/2) (ref_coldfilt ZOps (L 0%nat) r (f 0%nat) (f 1%nat) (line_of (x 0%nat)) (geti ip 0 =? 1))]
+  | 112 => let r := tW (x 0%nat) in Ok [ten_of_line (2*r) (ref_colifilt ZOps (L 0%nat) r (f 0%nat) (f 1%nat) (line_of (x 0%nat)) (geti ip 0 =? 1))]
   | _ => Err 99
   end.
